@@ -67,7 +67,7 @@ macro "c21_eval" : tactic => `(tactic|
   simp (config := { decide := true }) [Good, CallSys.step, Fut.poll, Fut.drop, Fut.wake, Fut.handle, pollComplete, pollCompleteWithCode,
     registerWaker, unregisterWaker, cancel, cancelPrepare, cabiWake, subtaskOps, subtaskUpdate,
     WOp.new, Step.bind, Step.emit, Step.pure, run, SubtaskSpec.step, Inv, AwaitInv, startedKnown, resolvedKnown,
-    InProgress.flagStarted, InProgress.dropEvs, CallResult.dropEvs, dropOp, CabiTask.dropEvs, complete, completeChecks,
+    InProgress.flagStarted, InProgress.dropEvs, CallResult.dropEvs, dropOp, dropCancel, CabiTask.dropEvs, complete, completeChecks,
     Host.STARTED, Host.RETURNED, Host.STARTING, Host.RETURNED_CANCELLED, Host.STARTED_CANCELLED, Host.resolved, *])
 
 set_option maxHeartbeats 1000000 in
@@ -85,7 +85,7 @@ theorem step_poll_unpolled (spec : CallSpec) (t : CurTask) (c : CallSys) (m : Ca
   rcases legalStart_cases hl with ⟨hc, hh⟩ | ⟨hc, hh⟩ | ⟨hc, hh⟩ <;> rcases hv with hv | hv <;> cases area <;>
     simp [Good, CallSys.step, Fut.poll, pollComplete, pollCompleteWithCode, registerWaker, subtaskOps, subtaskUpdate,
         WOp.new, Step.bind, Step.emit, Step.pure, hc, hh, hv, run, SubtaskSpec.step, Inv, AwaitInv, startedKnown, resolvedKnown,
-        InProgress.flagStarted, InProgress.dropEvs, CallResult.dropEvs, dropOp, CabiTask.dropEvs, complete, completeChecks,
+        InProgress.flagStarted, InProgress.dropEvs, CallResult.dropEvs, dropOp, dropCancel, CabiTask.dropEvs, complete, completeChecks,
         Host.STARTED, Host.RETURNED, Host.STARTING, Host.RETURNED_CANCELLED, Host.STARTED_CANCELLED, Host.resolved]
 
 
